@@ -108,6 +108,16 @@ pub fn generate(run_seed: u64, tier: Tier) -> Scenario {
             },
         });
     }
+    // own sub-stream: 1 in 8 source threads end in a long run of non-message frames (260-420 tool
+    // side-effect frames after the last message: beyond any bounded tail window)
+    let mut tail = Rng::derive(run_seed, "c10:long-tail");
+    if tail.chance(1, 8) {
+        let thread = tail.below(2) as u32;
+        history.push(Op::FullRun { thread, size: 1, effects: 0, cursor_key: None });
+        for _ in 0..tail.range(260, 420) {
+            history.push(Op::ToolSideEffects { thread, msg: 1_000, paths: 1 });
+        }
+    }
     Scenario {
         sim_seed: crate::prng::mix_label(run_seed, "sim"),
         history,
@@ -184,12 +194,23 @@ pub fn execute(sc: &Scenario, env: &Env) -> (Outcome, RunStats) {
                 }
                 // ids that do not resolve to a readable blob: never written, empty, and ids that
                 // resolve to a directory once the blob store exists
-                Summary::UnreadableArtifact => (None, Some(match k % 5 {
+                // ... and the id of a blob that does exist, padded with white space (the id as given
+                // is what gets recorded, so the id as given must resolve)
+                Summary::UnreadableArtifact => (None, Some(match k % 7 {
                     0 => "e".repeat(64),
                     1 => String::new(),
                     2 => ".".to_string(),
                     3 => "../blobs".to_string(),
-                    _ => "..".to_string(),
+                    4 => "..".to_string(),
+                    n => {
+                        let id = format!("{:064x}", 0xabc1_0000u128 + k as u128);
+                        seam::passthrough(|| {
+                            let dir = w.dirs.blobs_dir();
+                            let _ = std::fs::create_dir_all(&dir);
+                            let _ = std::fs::write(dir.join(&id), b"{\"schema\":\"rip.handoff_context_bundle.v1\"}");
+                        });
+                        if n == 5 { format!(" {id}") } else { format!("{id}\n") }
+                    }
                 })),
                 Summary::TextAndUnreadableArtifact => (Some(format!("summary {k}")), Some("d".repeat(64))),
             };
